@@ -54,7 +54,7 @@ def rnd_val(r, t):
     if t == "optint":
         return r.randint(1, 99) if r.random() < 0.8 else None
     if t == "str":
-        return "v%d" % r.randint(1, 99)
+        return "v%d" % r.randint(1, 99) if r.random() < 0.88 else ""  # the empty string is a value like any other
     if t == "list_int":
         return [r.randint(1, 9) for _ in range(r.randint(0, 3))]
     if t == "list_list_int":
